@@ -132,7 +132,14 @@ class Harness:
         for r in range(3):
             if not c.prove(tasks_eq(w.replica_tasks(r), ref), 'replicas differ', w.witness, {'class': 'diverged'}):
                 return None
-        return w.sample({'snapshots': len(w.server.snapshots_received), 'avoid': avoid})
+        out = w.sample({'snapshots': len(w.server.snapshots_received), 'avoid': avoid})
+        if 'scenario' in out:
+            # the replay's reference server needs the urgency it is to state for every accepted version
+            urg = []
+            for st in out['scenario']['steps']:
+                urg.extend(st.get('urgency', []))
+            out['scenario'].update(urgency=urg, want_snapshots=True)
+        return out
 
 
 def replay_scenario(v):
